@@ -249,6 +249,7 @@ type Exec struct {
 	mlog     []mlogRec
 	pendingEval *smt.Evaluator
 	pcLits   map[*smt.Term]int
+	ufApps   []ufApp
 	eval     *smt.Evaluator // model satisfying the current path condition (nil: unknown)
 
 	// per worker
@@ -329,6 +330,7 @@ func (ex *Exec) RunPath(fn *ssa.Function, trail []uint64) (alts [][]uint64) {
 	ex.mlog = nil
 	ex.eval = smt.NewEvaluator(map[*smt.Term]uint64{})
 	ex.pcLits = map[*smt.Term]int{}
+	ex.ufApps = nil
 	ex.solver.Pop(ex.solver.Depth())
 	ex.stats.Paths++
 	q0, t0 := ex.solver.Queries, ex.solver.Time
@@ -793,6 +795,12 @@ func (ex *Exec) recordViolation(kind, name, site, msg string) {
 	for i, iv := range ex.inputs {
 		terms[i] = iv.T
 	}
+	// uninterpreted-function applications with symbolic arguments: their value and the
+	// arguments' values are read from the model and recorded as "name(args)" inputs
+	for _, u := range ex.ufApps {
+		terms = append(terms, u.app)
+		terms = append(terms, u.args...)
+	}
 	res, vals, err := ex.solver.CheckModel(nil, terms)
 	if err == nil && res == smt.Unknown {
 		res, vals = ex.fallback(nil, terms)
@@ -800,6 +808,13 @@ func (ex *Exec) recordViolation(kind, name, site, msg string) {
 	if err == nil && res == smt.Sat {
 		for i, iv := range ex.inputs {
 			v.Inputs[iv.Name] = vals[i]
+		}
+		k := len(ex.inputs)
+		for _, u := range ex.ufApps {
+			appVal := vals[k]
+			argVals := vals[k+1 : k+1+len(u.args)]
+			v.Inputs[ufAppName(u.name, u.args, argVals)] = appVal
+			k += 1 + len(u.args)
 		}
 	} else {
 		v.Msg += fmt.Sprintf(" (model unavailable: %v %v)", res, err)
